@@ -304,6 +304,7 @@ func normNum(v string) string {
 }
 
 type FinalPool struct {
+	onDone  func(q *FinalQuery)
 	wg      sync.WaitGroup
 	mu      sync.Mutex
 	done    []*FinalQuery
@@ -357,6 +358,9 @@ func (p *FinalPool) submit(q *FinalQuery, text string) {
 		p.mu.Lock()
 		p.done = append(p.done, q)
 		p.mu.Unlock()
+		if p.onDone != nil {
+			p.onDone(q)
+		}
 	}()
 }
 
